@@ -64,6 +64,28 @@ def build(v, memo):
         for k, x in v["fields"].items():
             object.__setattr__(o, k, build(x, memo))
         return o
+    if t == "transport":
+        if v["id"] in memo:
+            return memo[v["id"]]
+        from unittest.mock import MagicMock
+        tr = MagicMock()
+        state = {"closing": v["closing"]}
+        tr.is_closing.side_effect = lambda: state["closing"]
+        tr.close.side_effect = lambda: state.__setitem__("closing", True)
+        tr.get_extra_info.return_value = ("peer", 6444)
+        memo[v["id"]] = tr
+        return tr
+    if t == "queue":
+        q = asyncio.Queue()
+        for x in v["items"]:
+            q.put_nowait(build(x, memo))
+        return q
+    if t == "datetime":
+        from datetime import datetime, timezone, timedelta
+        return datetime(2000, 1, 1, tzinfo=timezone.utc) + timedelta(seconds=max(min(v["ts"], 10**9), -10**9))
+    if t == "timedelta":
+        from datetime import timedelta
+        return timedelta(seconds=max(min(v["secs"], 10**9), -10**9))
     raise ValueError(f"cannot build input of type {t}")
 
 
@@ -153,8 +175,24 @@ def run(spec):
     for k, o in loc.items():
         if hasattr(o, "__dict__") and not isinstance(o, type):
             before[k] = {f: snapshot(x) for f, x in vars(o).items()}
-    fn = resolve_target(spec["target"], loc)
-    args = {k: v for k, v in loc.items() if k not in ("self", "cls")}
+    fn = resolve_target(spec["target"].split("#")[0], loc)
+    import inspect
+    try:
+        sig_names = set(inspect.signature(fn).parameters) if not isinstance(fn, type(lambda: 0)) or fn.__name__ != "<lambda>" else None
+    except (TypeError, ValueError):
+        sig_names = None
+    real = real_params(spec["target"].split("#")[0], loc)
+    args = {k: v for k, v in loc.items() if k not in ("self", "cls") and (real is None or k in real)}
+    for pname, src in c.get("bind", {}).items():
+        args[pname] = env[src]
+    for pname in c.get("bind_kwargs", []):
+        args[pname] = loc[pname]
+    varargs = [loc[pname] for pname in c.get("bind_varargs", [])]
+    for pname in c.get("bind_varargs", []):
+        args.pop(pname, None)
+    if varargs:
+        fn0 = fn
+        fn = lambda **kw: fn0(*varargs, **kw)
     raised = None
     result = None
     try:
@@ -233,6 +271,28 @@ def frame_check(loc, before, mods, failures):
                 if hasattr(a, "__dict__") and hasattr(b, "__dict__"):
                     continue
                 failures.append(f"frame.{full}: changed from {a!r} to {b!r}")
+
+
+def real_params(qual, loc):
+    """names of the real function's parameters (contract-only ghost parameters are not passed)"""
+    import inspect
+    parts = qual.split(".")
+    name = parts[-1][:-7] if parts[-1].endswith("!setter") else parts[-1]
+    try:
+        owner = resolve(".".join(parts[:-1]))
+        f = owner.__dict__.get(name) if hasattr(owner, "__dict__") else None
+        if isinstance(f, property):
+            f = f.fset if parts[-1].endswith("!setter") else f.fget
+        if isinstance(f, (classmethod, staticmethod)):
+            f = f.__func__
+        if f is None:
+            f = resolve(qual)
+        ps = inspect.signature(f).parameters
+        if any(p.kind == p.VAR_KEYWORD for p in ps.values()):
+            return None
+        return set(ps)
+    except Exception:
+        return None
 
 
 def resolve_exc(q):
